@@ -108,9 +108,9 @@ pub fn scalar_docs() -> Vec<crate::docs::Doc> {
     for s in singles {
         for tail in ["", "\n", "\r\n", "  # c\n"] {
             let text = format!("{s}{tail}");
-            out.push(crate::docs::Doc { ends: Some(vec![s.len()]), text, class: "scalar-root" });
+            out.push(crate::docs::Doc { ends: Some(vec![s.len()]), text, class: "scalar-root", wire: None });
         }
-        out.push(crate::docs::Doc { text: format!("--- {s}\n...\n"), ends: Some(vec![4 + s.len()]), class: "scalar-root" });
+        out.push(crate::docs::Doc { text: format!("--- {s}\n...\n"), ends: Some(vec![4 + s.len()]), class: "scalar-root", wire: None });
     }
     let streams: &[&[&str]] = &[
         &["1", "22", "333"],
@@ -137,7 +137,7 @@ pub fn scalar_docs() -> Vec<crate::docs::Doc> {
                 ends.push(start + b.len());
                 text.push('\n');
             }
-            out.push(crate::docs::Doc { text, ends: Some(ends), class: "scalar-stream" });
+            out.push(crate::docs::Doc { text, ends: Some(ends), class: "scalar-stream", wire: None });
         }
     }
     out
